@@ -29,9 +29,6 @@ private def poolEntries : List Sexp → List (Nat × Bool)
   | _ :: rest => poolEntries rest
 
 def handleDeterminism : List Sexp → Sexp
-  -- (c09-merge (outer (k ty)*) (emb (k ty)*) (query k*)): FieldsFromStruct's merge of an embedded table
-  | [.atom "c09-merge", .list (.atom "outer" :: outer), .list (.atom "emb" :: emb), .list (.atom "query" :: qs)] =>
-    answer (mergeEmbedded (typesFromMap (entriesOf outer)) (entriesOf emb)) qs
   -- (c09-typesmap (emb (k ty)*) (query k*)): CreateTypesTable over the keys of a map environment
   | [.atom "c09-typesmap", .list (.atom "emb" :: emb), .list (.atom "query" :: qs)] =>
     answer (typesFromMap (entriesOf emb)) qs
@@ -55,7 +52,7 @@ def handleDeterminism : List Sexp → Sexp
   | _ => .list [.atom "bad-request"]
 
 def determinismHandlers : List (String × (List Sexp → Sexp)) :=
-  [("c09-merge", handleDeterminism), ("c09-typesmap", handleDeterminism), ("c09-check", handleDeterminism),
+  [("c09-typesmap", handleDeterminism), ("c09-check", handleDeterminism),
    ("c09-pool", handleDeterminism)]
 
 end ExprModel.Drv
